@@ -581,6 +581,9 @@ class XPathToken(Token[ta.XPathTokenType]):
                 case str() | AnyURI():
                     if not isinstance(op2, (str, UntypedAtomic, AnyURI)):
                         raise TypeError(msg.format(type(op1), type(op2)))
+                    elif isinstance(op1, AnyURI) and isinstance(op2, UntypedAtomic):
+                        yield op1, AnyURI(op2.value)  # cast of the untyped operand, as on the left
+                        continue
                 case bool():
                     if isinstance(op2, (str, Integer, AbstractQName, AnyURI)):
                         raise TypeError(msg.format(type(op1), type(op2)))
